@@ -197,7 +197,8 @@ func runSummarizedHmm(cs *EMCase, tr *[]step) error {
 	hook := generic.BaumWelchHook{Value: func(b generic.BasicHmm, i int, L, eps float64) {
 		*tr = append(*tr, step{i: i, L: L, hmm: snapHmm(b.(*vd.Hmm), h)})
 	}}
-	return generic.BaumWelchAlgorithm(core, nil, data.GetNRecords(), nData, data.GetNMapped(), hmm.NStates(), hmm.NEDists(), emEps, cs.maxSteps(), pool1, hook)
+	return generic.BaumWelchAlgorithm(core, nil, data.GetNRecords(), nData, data.GetNMapped(), hmm.NStates(), hmm.NEDists(), emEps, cs.maxSteps(), pool1, hook,
+		generic.BaumWelchOptimizeEmissions{Value: !cs.FreezeEmissions}, generic.BaumWelchOptimizeTransitions{Value: !cs.FreezeSecond})
 }
 
 /* differential: summarised run against the standard estimator
